@@ -151,6 +151,9 @@ def main():
             status, res["id"], res["property"], res.get("wall_s", 0),
             res.get("class") or res.get("note", ""), extra))
     out = os.path.join(VERIF, "selftest", "sensitivity_last.json")
+    if args.only:
+        # a partial run must not overwrite the record of the full one
+        out = os.devnull
     with open(out, "w") as fhnd:
         json.dump({"results": results, "missed": missed,
                    "repo_head": subprocess.run(
